@@ -16,6 +16,7 @@ pub mod c21;
 pub mod c22;
 pub mod c23;
 pub mod c02;
+pub mod c08;
 pub mod c09;
 pub mod c10;
 pub mod c25;
@@ -35,6 +36,7 @@ pub mod c38;
 pub mod c39;
 pub mod c40;
 pub mod c41;
+pub mod c42;
 pub mod c43;
 pub mod conc;
 pub mod hist;
@@ -64,6 +66,7 @@ pub fn registry() -> Vec<Box<dyn DynProp>> {
         Box::new(Adapter(Arc::new(c20::C20))),
         Box::new(Adapter(Arc::new(c29::C29))),
         Box::new(Adapter(Arc::new(c02::C02))),
+        Box::new(Adapter(Arc::new(c08::C08))),
         Box::new(Adapter(Arc::new(c09::C09))),
         Box::new(Adapter(Arc::new(c10::C10))),
         Box::new(Adapter(Arc::new(c25::C25))),
@@ -82,6 +85,7 @@ pub fn registry() -> Vec<Box<dyn DynProp>> {
         Box::new(Adapter(Arc::new(c39::C39))),
         Box::new(Adapter(Arc::new(c40::C40))),
         Box::new(Adapter(Arc::new(c41::C41))),
+        Box::new(Adapter(Arc::new(c42::C42))),
         Box::new(Adapter(Arc::new(c43::C43))),
     ]
 }
